@@ -13,6 +13,7 @@ import framework as fw
 import sx
 from sx import Str, Sym
 
+TAG = "C05"          # directory tag of the vm_compute cross-check (set per run so that runs do not collide)
 STRINGLIT_INSIDE = re.compile(r'(\\.|[^"\\])*')
 
 
@@ -29,6 +30,8 @@ class Table:
 def code_points(x, acc):
     if isinstance(x, Str):
         acc.update(x)
+    elif isinstance(x, int) and not isinstance(x, bool) and 0 <= x < 0x110000:
+        acc.add(x)                      # pattern characters are bare integers in the dump
     elif isinstance(x, list):
         for y in x:
             code_points(y, acc)
@@ -208,5 +211,5 @@ def correspondence(rep, rng, tier, harness, driver, accepted):
     c2, r2 = stage2(rep, harness, driver, np_t, ge_t, accepted, stats)
     stats["model_cases"] = len(c1) + len(c2)
     xs = c1[:20] + c2[:20]
-    nx = fw.coq_crosscheck(xs, r1[:20] + r2[:20], "C05")
+    nx = fw.coq_crosscheck(xs, r1[:20] + r2[:20], TAG)
     return stats, nx
